@@ -572,7 +572,11 @@ class KademliaProtocol(DatagramProtocol):
         self._send(peer, response)
 
     def send_error(self, peer: 'KademliaPeer', error: ErrorDatagram):
-        self._send(peer, error)
+        try:
+            self._send(peer, error)
+        except ValueError as err:
+            # the error text echoes request content and can exceed the datagram size limit
+            log.warning("could not send error reply to %s:%i - %s", peer.address, peer.udp_port, str(err))
 
     def _send(self, peer: 'KademliaPeer', message: typing.Union[RequestDatagram, ResponseDatagram, ErrorDatagram]):
         if not self.transport or self.transport.is_closing():
